@@ -345,7 +345,9 @@ func (m *Mux) serveHTTP(w http.ResponseWriter, r *http.Request) error {
 	if err != nil {
 		return err
 	}
-	params = append(params, queryParams...)
+	// Path variables are applied last so a query parameter naming the
+	// same field can not replace the value captured from the path.
+	params = append(queryParams, params...)
 
 	hd, err := s.pickMethodHandler(method.name)
 	if err != nil {
